@@ -55,10 +55,25 @@ func (c *Ctx) BuildQuery(o *Obligation, produceModels bool) (string, int) {
 	}
 	relevant := map[string]bool{}
 	var queue []string
-	add := func(s string) {
+	// bodies of defined functions (spec functions with a body): their symbols are relevant when the function is
+	defBody := map[string]string{}
+	for _, d := range c.decls {
+		if strings.HasPrefix(d, "(define-fun") {
+			if f := strings.Fields(d); len(f) >= 2 {
+				defBody[f[1]] = d
+			}
+		}
+	}
+	var add func(s string)
+	add = func(s string) {
 		if !relevant[s] {
 			relevant[s] = true
 			queue = append(queue, s)
+			if d, ok := defBody[s]; ok {
+				for _, bs := range c.symbolsOf(d) {
+					add(bs)
+				}
+			}
 		}
 	}
 	for _, s := range c.symbolsOf(o.Guard.S) {
